@@ -207,6 +207,8 @@ func readI(i *bufio.Reader) (v int64, err error) {
 	if bs[0] == '-' {
 		s = -1
 		bs = bs[1:]
+	} else if bs[0] == '+' { // RESP3: ":[<+|->]<value>\r\n"
+		bs = bs[1:]
 	}
 	if len(bs) > 21 { // more than 19 digits overflow an int64
 		return 0, errors.New(unexpectedNumByte + strconv.Itoa(int(bs[19])))
